@@ -10,6 +10,9 @@ CLAIMED = {
          "Exploration by runtime monitoring: every size 0..40 x 8 layouts exhaustively and sampled sizes at fan-out boundaries to 5000 are bulk-loaded; every search's callback sequence is compared with a linear scan, Stop/wrapped Stop/error are injected at every visit position for n<=40, and the hook rtree.VerifCheck walks the tree after every load. Holds for the executions observed, not a proof.",
          "trusts the harness's linear scan and exact quarter-integer arithmetic; sizes >40 are sampled", "DESIGN.md §3 C11"),
 }
+CLAIMED['C02'] = ("reference-model monitor: exact rational slab-arrangement DE-9IM oracle with definitional locate, compared character by character with Relate and the nine predicates on generated operand pairs",
+  "Exploration by runtime monitoring: thousands of generated ordered operand pairs per run (all 8x8 operand kinds incl. typed empties and oracle-certified disjoint collections; dense lattices, large lattice, general-position floats) are passed to the real Relate/predicates and judged against an independent exact-arithmetic DE-9IM; the evidence lists the distinct matrices observed. Holds for the pairs observed.",
+  "trusts verif/exact (self-checked: transpose, arrangement consistency) and the harness's pattern table typed from the function documentation", "DESIGN.md §3 C02")
 REASONS = {}
 hooks_commits = subprocess.run(['git','-C','/repo','log','--format=%h %s'],capture_output=True,text=True).stdout.splitlines()
 hook_commits = [l.split()[0] for l in hooks_commits if l.split(' ',1)[1].startswith('verif hook')]
